@@ -12,12 +12,26 @@ use wtransport::quinn;
 pub async fn exec(a: &Args) -> Args {
     let (delay, tasks, cancel, exp_uni, exp_bi) = (a[0][0], a[0][1].max(1), a[0][2], a[0][3] as usize, a[0][4] as usize);
     let n = (a.len() - 1) / 2;
-    let (server, addr) = wt_server(None);
-    let ep = raw_client(None);
-    let (app, raw) = tokio::join!(wt_accept(&server), raw_establish(&ep, addr, "/st"));
-    let (conn, raw) = match (app, raw) {
-        (Ok(c), Ok(r)) => (c, r),
-        _ => return vec![vec![2]],
+    // a[0][5] = 1: the library is the client and the raw peer (the server) opens the streams
+    let client_role = a[0].get(5).copied().unwrap_or(0) == 1;
+    let mut g_server = None;
+    let mut g_raw = None;
+    let mut g_client = None;
+    let (conn, raw) = if client_role {
+        match client_establish("/st", None).await {
+            Ok((c, r, rep, cl)) => { g_raw = Some(rep); g_client = Some(cl); (c, r) }
+            Err(_) => return vec![vec![2]],
+        }
+    } else {
+        let (server, addr) = wt_server(None);
+        let ep = raw_client(None);
+        let (app, raw) = tokio::join!(wt_accept(&server), raw_establish(&ep, addr, "/st"));
+        g_server = Some(server);
+        g_raw = Some(ep);
+        match (app, raw) {
+            (Ok(c), Ok(r)) => (c, r),
+            _ => return vec![vec![2]],
+        }
     };
     // the application: `tasks` accepting tasks per kind, optional delay before each accept,
     // optional cancellation of pending accepts (timeout 3ms, reissued)
@@ -226,8 +240,9 @@ pub async fn exec(a: &Args) -> Args {
     for h in handles {
         h.abort();
     }
-    server.close(vi(0), b"");
-    ep.close(qvi(0), b"");
+    if let Some(s) = &g_server { s.close(vi(0), b""); }
+    if let Some(e) = &g_raw { e.close(qvi(0), b""); }
+    if let Some(c) = &g_client { c.close(vi(0), b""); }
     out
 }
 
@@ -413,6 +428,25 @@ fn spec(kind: u64, cut: usize, pause: u64, end: u64, code: u64) -> Vec<u64> {
 }
 
 pub fn generate(rng: &mut Rng, thorough: bool, which: &str) -> Vec<Case> {
+    let mut cs = generate_server_role(rng, thorough, which);
+    // the same scripts with the library in the client role (every third one in the quick tier);
+    // a session request sent to a client is not a scenario
+    if which != "requests" {
+        let n = cs.len();
+        for i in 0..n {
+            if thorough || i % 3 == 1 {
+                let c = &cs[i];
+                let mut args = c.args.clone();
+                while args[0].len() < 5 { args[0].push(0); }
+                args[0].push(1);
+                cs.push(Case::new(621, args, &format!("client-role:{}", c.label)));
+            }
+        }
+    }
+    cs
+}
+
+fn generate_server_role(rng: &mut Rng, thorough: bool, which: &str) -> Vec<Case> {
     let mut cs = vec![];
     let payload = |rng: &mut Rng, n: usize| -> Vec<u8> { rng.bytes(n) };
     if which == "streams" {
